@@ -145,7 +145,7 @@ func TestVerifC24(t *testing.T) {
 	tags := []string{"x", "y", "z"}
 	base := time.Date(2020, 3, 1, 12, 0, 0, 0, time.UTC)
 
-	nRepos := env.Pick(600, 60000)
+	nRepos := env.Pick(600, 8000)
 	queriesPerRepo := 50
 	var nFindAll, nLatest, nGroup, nByID, nLatestNone, nLatestTies int64
 	for ri := 0; ri < nRepos; ri++ {
